@@ -149,6 +149,9 @@ def boundary_calls():
             if k == 'index':
                 for v in BOUNDARY:
                     expand(i + 1, args + [lit(v)])
+                for wrong in (J.var('true'), J.var('false'), J.var('null'), J.s('1')):      # not numbers: the call fails
+                    if all(a.get('k') != 'var' or a.get('v') in ('a1', 's1', 'o1') for a in args):
+                        expand(i + 1, args + [wrong])
             elif k == 'string' and any(a.get('v') == 's1' for a in args if a.get('k') == 'var'):
                 expand(i + 1, args + [J.s('l')])                 # a search / separator string occurring twice in "hello"
             else:
